@@ -119,6 +119,19 @@ def quantTuple (q : Ast) (st : NState) : Ast × NState :=
     (setKids q [decl', dom, substTuple subs nn pred], st')
   | _ => (q, st)
 
+/-- `Normalizer::Quantifier` for a tuple declaration that was the first variable of an enumerated
+declaration: the body is the quantifier over the remaining variables, and only ITS predicate is in the
+scope of the pattern (`TupleDeclaration(quant(0), quant(2)(2))`) - not its copy of the domain -/
+def quantTupleEnum (q : Ast) (st : NState) : Ast × NState :=
+  match q.kids with
+  | [decl, dom, inner] =>
+    match inner.kids with
+    | [idecl, idom, pred] =>
+      let (nn, subs, decl', st') := processTupleDecl decl st
+      (setKids q [decl', dom, setKids inner [idecl, idom, substTuple subs nn pred]], st')
+    | _ => quantTuple q st
+  | _ => (q, st)
+
 /-- `Normalizer::EnumDeclaration` -/
 def enumDecl (q : Ast) : Ast :=
   match q with
@@ -244,7 +257,10 @@ def normalize (fs : Funcs) : Nat → Ast → NState → Option (Ast × NState)
         | some decl =>
           let r1 := if decl.id == .NT_ENUM_DECL then enumDecl root else root
           match r1.kids.head? with
-          | some d1 => if d1.id == .NT_TUPLE_DECL then some (quantTuple r1 st) else some (r1, st)
+          | some d1 =>
+            if d1.id == .NT_TUPLE_DECL then
+              some (if decl.id == .NT_ENUM_DECL then quantTupleEnum r1 st else quantTuple r1 st)
+            else some (r1, st)
           | none => some (r1, st)
         | none => some (root, st)
       | .NT_RECURSIVE_FULL | .NT_RECURSIVE_SHORT => some (recursion root st)
